@@ -87,7 +87,12 @@ def generate(seed, tier):
                 for t in s["tokens"]:
                     if t[0] and t[0][-1].isdigit():
                         t[0] = t[0] + "a"
+    second = None
+    if path == "api" and fmt != "lopar" and rng.random() < 0.3:
+        second = {"fmt": rng.choice(["pmcfg", "rcg"]),
+                  "opts": {"lex_in_grammar": True} if rng.random() < 0.5 else {}}
     return {"tb": tb, "fmt": fmt, "enc": enc, "mode": mode, "path": path, "opts": opts,
+            "second_write": second,
             "extra": (model.gen_treebank(rng, k, nsent=rng.choice([1, 2]))
                       if rng.random() < 0.3 else []),
             "prior": prior, "prefix": rng.choice(["g", "g", "g.bin", "negra.train", "gram.v2"]),
@@ -134,6 +139,10 @@ def api_ops(sc, write=True):
     ops.append(["gdump", var])
     if write:
         ops.append(["gwrite", sc["fmt"], var, OUT, sc["enc"], sc["opts"]])
+        if sc.get("second_write"):
+            # the caller writes the same grammar object once more (another format / options)
+            sw = sc["second_write"]
+            ops.append(["gwrite", sw["fmt"], var, "/sim/w/out2/g", sc["enc"], sw["opts"]])
     return ops
 
 
@@ -172,7 +181,7 @@ def execute(sc, sim):
     global OUT
     OUT = out_prefix(sc)          # one scenario at a time per worker
     st = cm.Stats()
-    st.declare("extract_into_reread_grammar", "reread_without_final_newline", "earlier_grammars_written_in_same_process", "rule_count_above_1", "ambiguous_word", "non_ascii_word", "fanout_above_1",
+    st.declare("same_grammar_written_twice", "extract_into_reread_grammar", "reread_without_final_newline", "earlier_grammars_written_in_same_process", "rule_count_above_1", "ambiguous_word", "non_ascii_word", "fanout_above_1",
                "lex_in_grammar", "cli_path", "own_reader_reread", "grammar_cmd_from_rcg",
                "lopar_refuses_non_cf", "lopar_start_2plus_symbols", "second_hash_seed",
                "shared_linearization_sequence", "other_platform_refused")
@@ -191,7 +200,7 @@ def execute(sc, sim):
         st.probe("fanout_above_1")
     if "lex_in_grammar" in sc["opts"]:
         st.probe("lex_in_grammar")
-    base = {"dirs": ["/sim/w/out", "/sim/w/prior"], "io_seed": sc["io_seed"],
+    base = {"dirs": ["/sim/w/out", "/sim/w/out2", "/sim/w/prior"], "io_seed": sc["io_seed"],
             "platform": sc["platform"]}
     # ---- in-memory grammar (always through the API, dumped before any writer runs)
     if sc["path"] == "api" and sc.get("prior"):
@@ -258,6 +267,24 @@ def execute(sc, sim):
     if v:
         return done(sc, st, [v])
     files = obs["files"]
+    if sc.get("second_write") and sc["path"] == "api" and not sc.get("prior"):
+        st.probe("same_grammar_written_twice")
+        st.fault("history")
+        wrecs = [r for r in recs if r["op"] == "gwrite"]
+        if len(wrecs) == 2 and "exc" in wrecs[1]:
+            return done(sc, st, [cm.viol("C09/second-write/raised/%s" % wrecs[1]["exc"],
+                                         msg=wrecs[1].get("msg"))])
+        sw = sc["second_write"]
+        files2 = dict((OUT + p[len("/sim/w/out2/g"):], d) for p, d in files.items()
+                      if p.startswith("/sim/w/out2/g."))
+        v = judge_files(dict(sc, fmt=sw["fmt"], opts=sw["opts"]),
+                        {"files": files2, "writelog": [], "unclosed_at_return": []},
+                        memflat, memlex, st, tag="second-write", history=False)
+        if v:
+            v["sig"] = v["sig"].replace("C09/", "C09/second-write/")
+            v["detail"]["first"] = [sc["fmt"], sc["opts"]]
+            v["detail"]["second"] = [sw["fmt"], sw["opts"]]
+            return done(sc, st, [v])
     # ---- second hash seed (set-valued LoPar side files)
     if fmt == "lopar" and sc["path"] == "api":
         obs2 = sim.run(dict(base, sessions=[{"id": "s", "ops": api_ops(sc)}]), hs=1)
@@ -376,6 +403,7 @@ def judge_files(sc, obs, memflat, memlex, st, tag="", history=True):
             return cm.viol("C09/file-set/left-open/%s" % fmt, files=obs["unclosed_at_return"])
         touched = sorted(set(p for (_, p, _, _) in obs.get("writelog", [])))
         other = [p for p in touched if not p.startswith(OUT + ".")
+                 and not p.startswith("/sim/w/out2/")
                  and not p.startswith("/sim/w/prior/")]
         if other:
             return cm.viol("C09/file-set/foreign-file-written/%s" % fmt, files=other)
@@ -457,6 +485,10 @@ def shrink_candidates(sc):
     if sc.get("prior"):
         c = model.clone(sc)
         c["prior"] = sc["prior"][:-1]
+        yield c
+    if sc.get("second_write") and sc["second_write"]["opts"]:
+        c = model.clone(sc)
+        c["second_write"]["opts"] = {}
         yield c
     if sc.get("extra"):
         c = model.clone(sc)
